@@ -41,7 +41,8 @@ func init() {
 	})
 }
 
-var c09Users = []UserCfg{{AuthID: "alice", Role: "admin", Secret: "alice-secret"}, {AuthID: "bob", Role: "user", Secret: "bob-secret"}, {AuthID: "obs", Role: "observer", Secret: "obs-secret"}}
+var c09Users = []UserCfg{{AuthID: "alice", Role: "admin", Secret: "alice-secret"}, {AuthID: "bob", Role: "user", Secret: "bob-secret"}, {AuthID: "obs", Role: "observer", Secret: "obs-secret"},
+	{AuthID: "carol", Secret: "carol-secret", NoRole: true}} // a user with credentials but no role on record
 
 func genC09(t *rapid.T) *Case {
 	var auths []string
@@ -57,7 +58,7 @@ func genC09(t *rapid.T) *Case {
 		auths = append(auths, "wampcra-salted")
 	}
 	auths = append(auths, "static")
-	rc := RealmCfg{URI: "r1", Anonymous: pct(t, 40, "anon"), RequireLocalAuth: pct(t, 50, "rla"), Auths: auths, Users: c09Users, Strict: pct(t, 20, "strict")}
+	rc := RealmCfg{URI: "r1", Anonymous: pct(t, 40, "anon"), RequireLocalAuth: pct(t, 50, "rla"), Auths: auths, Users: c09Users, Strict: pct(t, 20, "strict"), CookieAuth: pct(t, 25, "cookieauth")}
 	c := &Case{Realms: []RealmCfg{rc}}
 	if pct(t, 35, "template") {
 		tc := rc
@@ -72,6 +73,13 @@ func genC09(t *rapid.T) *Case {
 		s := SessCfg{Realm: "r1", NoJoin: true}
 		if pct(t, 55, "remote") {
 			s.Transport = pick(t, remoteTransports, "tr")
+		}
+		if rc.CookieAuth && pct(t, 75, "cookies") {
+			// a websocket client with tracking cookies: few values, so that a later
+			// candidate presents the cookie an earlier one was handed
+			s.Transport = pick(t, []string{"ws-json", "ws-msgpack", "ws-cbor"}, "cookietr")
+			s.Cookie = pick(t, []string{"", "c1", "c2"}, "cookie")
+			s.NextCookie = pick(t, []string{"c1", "c2", "c1"}, "nextcookie")
 		}
 		c.Sess = append(c.Sess, s)
 		native := s.Transport == ""
@@ -119,7 +127,7 @@ func genC09(t *rapid.T) *Case {
 		if pct(t, 4, "hostilemethods") {
 			details = append(details, KV{"authmethods", genHostileValue(t, native)})
 		}
-		authid := pick(t, []string{"alice", "alice", "bob", "mallory", ""}, "authid")
+		authid := pick(t, []string{"alice", "alice", "bob", "mallory", "", "carol", "alice"}, "authid")
 		if authid != "" {
 			details = append(details, KV{"authid", VStr(authid)})
 		} else if pct(t, 30, "hostileauthid") {
@@ -200,10 +208,11 @@ type c09Oracle struct {
 	obsSubCanary wamp.ID
 	joinsSeen map[wamp.ID]wamp.Dict
 	metaReq map[wamp.ID]bool
+	jar     map[string]string // realm|cookie -> authid of the user that was handed it after authenticating
 }
 
 func newC09Oracle(c *Case) *c09Oracle {
-	return &c09Oracle{c: c, cands: map[int]*cand{}, joinsSeen: map[wamp.ID]wamp.Dict{}, metaReq: map[wamp.ID]bool{}}
+	return &c09Oracle{c: c, cands: map[int]*cand{}, joinsSeen: map[wamp.ID]wamp.Dict{}, metaReq: map[wamp.ID]bool{}, jar: map[string]string{}}
 }
 
 func (o *c09Oracle) fail(st *StepRec, format string, a ...any) *Violation {
@@ -353,11 +362,22 @@ func (o *c09Oracle) expect(cd *cand, local bool) (string, string) {
 	if authid == "" {
 		return "abort", "challenge method without authid"
 	}
+	if u, ok := userByID(authid); ok && u.NoRole && method == "cryptosign" {
+		return "either", "cryptosign user without a role on record"
+	}
+	if cfg.CookieAuth && (method == "ticket" || method == "wampcra") {
+		sc := &o.c.Sess[cd.idx]
+		if sc.Cookie != "" && o.jar[string(h.Realm)+"|"+sc.Cookie] == authid {
+			return "welcome", "recognised by the tracking cookie handed to this user after an earlier authentication"
+		}
+	}
 	if cd.challenge == nil {
 		if method == "cryptosign" && !known {
 			return "abort", "unknown cryptosign user"
 		}
-		return "either", "no challenge observed"
+		// a challenge method welcomes nobody who was not challenged (the tracking-cookie
+		// bypass was handled above)
+		return "abort", "no challenge was issued in this handshake"
 	}
 	if cd.response == nil {
 		return "abort", "no response to the challenge"
@@ -476,6 +496,18 @@ func (o *c09Oracle) OnStep(e *Engine, st *StepRec) *Violation {
 		case want == "welcome" && cd.outcome == "abort":
 			return o.fail(st, "session %d was refused although it presented valid credentials: %s (HELLO %s; challenge %s; response %s)\n%s", s, why, msgOrNil(cd.firstHello), msgOrNil(cd.challenge), msgOrNil(cd.response), bubbleStacks())
 		}
+		if cd.outcome == "welcome" && cd.firstHello != nil {
+			// the key store notes the next tracking cookie for a user that was authenticated by it
+			if cfg, ok := o.realmFor(string(cd.firstHello.Realm)); ok && cfg.CookieAuth && cd.welcome != nil {
+				if m, _ := wamp.AsString(cd.welcome.Details["authmethod"]); m == "ticket" || m == "wampcra" {
+					if nc := e.Sess[s].Cfg.NextCookie; nc != "" {
+						id, _ := wamp.AsString(cd.welcome.Details["authid"])
+						o.jar[string(cd.firstHello.Realm)+"|"+nc] = id
+						o.st.Label("tracking_cookie_recorded")
+					}
+				}
+			}
+		}
 		if cd.outcome == "welcome" {
 			if v := o.checkIdentity(e, st, cd, local); v != nil {
 				return v
@@ -582,7 +614,10 @@ func (o *c09Oracle) checkIdentity(e *Engine, st *StepRec, cd *cand, local bool) 
 		}
 	default:
 		u, known := userByID(claimed)
-		if !known || authid != u.AuthID || role != u.Role {
+		if known && u.NoRole && authid == u.AuthID && (role == "" || role == "user") {
+			// no role on record: the authenticator's default ("" for ticket, "user" for wampcra)
+			o.st.Label("welcomed_user_without_role")
+		} else if !known || authid != u.AuthID || role != u.Role {
 			return o.fail(st, "session %d welcomed as authid=%q authrole=%q via %s, but the key store says user %q has role %q", cd.idx, authid, role, method, claimed, u.Role)
 		}
 	}
